@@ -175,6 +175,60 @@ func retryOracles(run *retryRun, cfg string, modelSettled, stuck, havePlan bool,
 		}
 	}
 
+	// first transmissions of ALL requests (publish, subscribe, unsubscribe) in submission order
+	{
+		occ := map[string][]int{} // request key -> submission indices of its occurrences
+		for i, a := range run.accepted {
+			occ[reqKeyOfAccepted(a)] = append(occ[reqKeyOfAccepted(a)], i)
+		}
+		started, acked := map[string]int{}, map[string]int{}
+		last, lastKey := -1, ""
+		for _, e := range s.wire {
+			key, final := "", false
+			switch e.pkt.Type {
+			case 0x30:
+				key = fmt.Sprintf("p%d", msgIndex(e.pkt))
+				final = e.pkt.QoS <= 1
+			case 0x60:
+				if m, ok := idOf[e.pkt.ID]; ok {
+					if e.tag == "" {
+						acked[fmt.Sprintf("p%d", m)]++
+					}
+				}
+				continue
+			case 0x80:
+				var parts []string
+				for i, f := range e.pkt.Filters {
+					parts = append(parts, fmt.Sprintf("%s.%d", hexOrDash([]byte(f)), e.pkt.QoSs[i]))
+				}
+				key, final = "s"+strings.Join(parts, ";"), true
+			case 0xa0:
+				var parts []string
+				for _, f := range e.pkt.Filters {
+					parts = append(parts, hexOrDash([]byte(f)))
+				}
+				key, final = "u"+strings.Join(parts, ";"), true
+			default:
+				continue
+			}
+			if started[key] > acked[key] {
+				// a retransmission of an occurrence that is still in flight
+			} else if started[key] < len(occ[key]) && !run.acceptedT[occ[key][started[key]]].After(e.at) {
+				idx := occ[key][started[key]]
+				started[key]++
+				if idx < last {
+					v = append(v, viol("C03", "request-order", "request %s (submitted as number %d) was transmitted for the first time after %s (number %d)", key, idx, lastKey, last))
+				}
+				if idx > last {
+					last, lastKey = idx, key
+				}
+			}
+			if final && (e.tag == "" || (e.pkt.Type == 0x30 && e.pkt.QoS == 0 && wroteOK(e.tag))) {
+				acked[key]++
+			}
+		}
+	}
+
 	// ---------- C12: faithful retransmissions ----------
 	for m, pl := range pubs {
 		if m < 0 {
@@ -494,4 +548,14 @@ func sameRequest(a, b *SPkt, idOf map[uint16]int) bool {
 		return b.Type == a.Type && strings.Join(b.Filters, "\x00") == strings.Join(a.Filters, "\x00")
 	}
 	return false
+}
+
+// reqKeyOfAccepted maps an accepted request ("p3q1", "s61.1;62.0", "u61") to the key used for wire packets.
+func reqKeyOfAccepted(a string) string {
+	if strings.HasPrefix(a, "p") {
+		if i := strings.Index(a, "q"); i > 0 {
+			return a[:i]
+		}
+	}
+	return a
 }
